@@ -33,7 +33,8 @@ type c17Case struct {
 	Msgs       []c17Msg
 	Fail       map[int]bool // destination call numbers (1-based) that fail
 	Delay      time.Duration
-	CancelAt   int // requeuer: cancel the context of the k-th delivery during the delay (0: never)
+	CancelAt   int  // requeuer: cancel the context of the k-th delivery during the delay (0: never)
+	Defaults   bool // forwarder: default topic on both sides and a Router provided by the caller
 }
 
 func c17Metas() []map[string]string {
@@ -76,6 +77,11 @@ func runC17(c *Ctx) error {
 						c17Msg{UUID: "u-last", Payload: "p", Meta: metas[2], Env: "valid", Dest: "dest-9"})
 				}
 				cases = append(cases, cs)
+				if comp == "forwarder" && fi < 2 {
+					cd := cs
+					cd.Defaults = true
+					cases = append(cases, cd)
+				}
 			}
 		}
 	}
@@ -128,7 +134,16 @@ func c17Run(r *tr.Run, cs c17Case) {
 	var fo *gochannel.FanOut
 	switch cs.Comp {
 	case "forwarder":
-		f, err := forwarder.NewForwarder(src, dest, nil, forwarder.Config{ForwarderTopic: "fwd", AckWhenCannotUnwrap: cs.AckInvalid, CloseTimeout: 2 * time.Second})
+		fcfg := forwarder.Config{ForwarderTopic: "fwd", AckWhenCannotUnwrap: cs.AckInvalid, CloseTimeout: 2 * time.Second}
+		if cs.Defaults {
+			ownRouter, rerr := message.NewRouter(message.RouterConfig{CloseTimeout: 2 * time.Second}, nil)
+			if rerr != nil {
+				r.Emit("error", "what", rerr.Error())
+				return
+			}
+			fcfg = forwarder.Config{AckWhenCannotUnwrap: cs.AckInvalid, Router: ownRouter} // ForwarderTopic left to its default
+		}
+		f, err := forwarder.NewForwarder(src, dest, nil, fcfg)
 		if err != nil {
 			r.Emit("error", "what", err.Error())
 			return
@@ -209,7 +224,12 @@ func c17Run(r *tr.Run, cs c17Case) {
 	var batch []*message.Message
 	var batchIdx []int
 	fwdCapture := scripted.NewPub("capture")
+	fwdTopic := "fwd"
 	fwdPub := forwarder.NewPublisher(fwdCapture, forwarder.PublisherConfig{ForwarderTopic: "fwd"})
+	if cs.Defaults {
+		fwdPub = forwarder.NewPublisher(fwdCapture, forwarder.PublisherConfig{})
+		fwdTopic = "forwarder_topic" // the documented default
+	}
 	for i, m := range cs.Msgs {
 		i, m := i, m
 		id := fmt.Sprintf("m%d", i+1)
@@ -227,7 +247,7 @@ func c17Run(r *tr.Run, cs c17Case) {
 		d := delivery{id: id, valid: true}
 		switch cs.Comp {
 		case "forwarder":
-			d.topic = "fwd"
+			d.topic = fwdTopic
 			switch m.Env {
 			case "valid":
 				before := len(fwdCapture.Calls())
@@ -236,6 +256,7 @@ func c17Run(r *tr.Run, cs c17Case) {
 					return
 				}
 				env := fwdCapture.Calls()[before].Msgs[0]
+				d.topic = fwdCapture.Calls()[before].Topic // (the topic the forwarder's Publisher really used)
 				d.mk = func() *message.Message { return env.Copy() }
 			case "batch":
 				batch = append(batch, orig)
